@@ -71,6 +71,9 @@ type C18Workload struct {
 	// ScaledDown: the (elastic) job was resized down by this many workers while their pods still exist (terminating / not yet
 	// removed by the training operator): the owner declares fewer Worker replicas than there are indexed worker pods
 	ScaledDown int `json:"scaled_down,omitempty"`
+	// ChildMetaDiffers: the intermediate owners (child Jobs of a JobSet) carry different priority class / preemptibility
+	// labels, as a JobSet copies them from each replicated job's template: the PodGroup must not depend on them
+	ChildMetaDiffers bool `json:"child_meta_differs,omitempty"`
 }
 
 type C18Step struct {
@@ -313,8 +316,13 @@ func c18Build(w *C18Workload) *c18Built {
 		}
 		js := c18Obj("jobset.x-k8s.io/v1alpha2", "JobSet", w.Name, w.OwnerLabels, w.OwnerAnnots, top, spec)
 		b.owners, b.effective = append(b.owners, js), js
-		ja := c18Obj("batch/v1", "Job", w.Name+"-a-0", nil, nil, js, map[string]any{"parallelism": i64(par)})
-		jb := c18Obj("batch/v1", "Job", w.Name+"-b-0", nil, nil, js, map[string]any{"parallelism": i64(1)})
+		var la, lb map[string]string
+		if w.ChildMetaDiffers {
+			la = map[string]string{"priorityClassName": "build", "kai.scheduler/preemptibility": "non-preemptible"}
+			lb = map[string]string{"priorityClassName": "train"}
+		}
+		ja := c18Obj("batch/v1", "Job", w.Name+"-a-0", la, nil, js, map[string]any{"parallelism": i64(par)})
+		jb := c18Obj("batch/v1", "Job", w.Name+"-b-0", lb, nil, js, map[string]any{"parallelism": i64(1)})
 		b.owners = append(b.owners, ja, jb)
 		keyA, keyB := shared+"/a", shared+"/b"
 		if w.AnyOrder {
